@@ -259,6 +259,7 @@ pub fn gen_enum(s: &mut Src, name: &str, bits: u32, plain: bool) -> EnumDecl {
                 name: format!("V{}", k),
                 disc: Disc::Lit { value: *d as u128, radix: radix(s), underscore: s.chance(1, 4) },
                 cfg: Cfg::None,
+                style: 0,
             });
         }
         return EnumDecl {
@@ -293,10 +294,12 @@ pub fn gen_enum(s: &mut Src, name: &str, bits: u32, plain: bool) -> EnumDecl {
     let conditional = s.chance(1, 4);
     for (k, d) in discs.iter().enumerate() {
         let cfg = if conditional && s.chance(1, 3) { Cfg::Always } else { Cfg::None };
+        let style = if s.chance(1, 4) { s.below(4) as u8 } else { 0 };
         variants.push(Variant {
             name: format!("V{}", k),
             disc: Disc::Lit { value: *d, radix: radix(s), underscore: s.chance(1, 4) },
             cfg,
+            style,
         });
     }
     if conditional && s.chance(1, 2) {
@@ -305,7 +308,7 @@ pub fn gen_enum(s: &mut Src, name: &str, bits: u32, plain: bool) -> EnumDecl {
         let at = s.below(variants.len() as u32 + 1) as usize;
         variants.insert(
             at,
-            Variant { name: format!("V{}", variants.len()), disc: Disc::Lit { value: d, radix: 10, underscore: false }, cfg: Cfg::Never },
+            Variant { name: format!("V{}", variants.len()), disc: Disc::Lit { value: d, radix: 10, underscore: false }, cfg: Cfg::Never, style: s.below(4) as u8 },
         );
     }
     let exhaustive = if conditional {
@@ -349,6 +352,8 @@ fn inner_layout(s: &mut Src, name: &str, bits: u32, debug: bool) -> Layout {
                 array: None,
                 ty,
                 access: Access::RW,
+                arg_order: 0,
+                opt_path: 0,
             });
         }
     }
@@ -636,7 +641,11 @@ pub fn build_layout_on(p: &Profile, s: &mut Src, bits: u32) -> Layout {
         } else {
             (kw_bit, ranges)
         };
-        l.fields.push(Field { name: format!("f{}", k), kw_bit, list: list_syntax, ranges, array, ty, access });
+        // spelling variants: order of the attribute arguments, field-name prefixes
+        let arg_order = if s.chance(1, 3) { s.below(6) as u8 } else { 0 };
+        let opt_path = if s.chance(1, 4) { s.range(1, 2) as u8 } else { 0 };
+        let prefix = if s.chance(1, 4) { s.pick(&["r", "rr", "rate", "w", "x_", "ready", "set", "with", "value"]) } else { "f" };
+        l.fields.push(Field { name: format!("{}{}", prefix, k), kw_bit, list: list_syntax, ranges, array, ty, access, arg_order, opt_path });
     }
     if l.fields.is_empty() {
         // always at least one field: a single bit at 0
@@ -651,6 +660,8 @@ pub fn build_layout_on(p: &Profile, s: &mut Src, bits: u32) -> Layout {
                 AccessMode::AllR => Access::R,
                 _ => Access::RW,
             },
+            arg_order: 0,
+                opt_path: 0,
         });
     }
     if p.ensure_writable && !l.fields.iter().any(|f| f.access.writable()) && p.access != AccessMode::AllR {
@@ -686,7 +697,7 @@ pub fn build_layout_on(p: &Profile, s: &mut Src, bits: u32) -> Layout {
             2 => s.u128() & m & !rules::writable_mask(&l),
             _ => s.u128() & m,
         };
-        l.default = Some(DefaultDecl { value: v, named_const: l.base_native() && s.chance(1, 4), radix: s.pick(&[10u8, 16, 16, 2]) });
+        l.default = Some(DefaultDecl { value: v, named_const: l.base_native() && s.chance(1, 4), radix: s.pick(&[10u8, 16, 16, 2, 8, 17, 3]) });
         l.default_colon = s.chance(1, 4);
     }
     l.debug_first = l.debug && s.chance(1, 2);
